@@ -7,6 +7,7 @@ import (
 	"encoding/binary"
 	enchex "encoding/hex"
 	"fmt"
+	"io"
 	"math"
 	"testing/iotest"
 
@@ -34,7 +35,7 @@ func init() {
 		Run:   run,
 		Setup: func(c *core.Ctx) { c.State = &aliasState{} },
 		Floors: func(t string) map[string]int64 {
-			return map[string]int64{"coord.nan_payload": 100, "coord.neg_zero": 100, "nested.depth>=2": 100, "empty.member": 100, "mixed_order.decoded": 1000, "path.len>=255": 50, "path.len>=4097": 20, "history.failed_call_first": 1000,
+			return map[string]int64{"coord.nan_payload": 100, "reader.data_with_eof": 1000, "coord.neg_zero": 100, "nested.depth>=2": 100, "empty.member": 100, "mixed_order.decoded": 1000, "path.len>=255": 50, "path.len>=4097": 20, "history.failed_call_first": 1000,
 				"type.Point": 10, "type.MultiPoint": 10, "type.LineString": 10, "type.MultiLineString": 10, "type.Polygon": 10, "type.MultiPolygon": 10, "type.GeometryCollection": 10}
 		},
 	})
@@ -310,8 +311,20 @@ func run(c *core.Ctx, idx int) {
 			}
 		})
 		c.Guard("wkb.Read", detail, func() {
-			// two concatenated encodings through a one-byte-at-a-time reader
-			rd := iotest.OneByteReader(bytes.NewReader(append(append([]byte{}, ref...), ref...)))
+			// two concatenated encodings through a one-byte-at-a-time reader ...
+			// ... or through a reader that hands over the last bytes together with io.EOF (as gzip
+			// readers and HTTP bodies do), or that delivers half of what is asked for
+			var rd io.Reader = bytes.NewReader(append(append([]byte{}, ref...), ref...))
+			switch c.R.Intn(3) {
+			case 0:
+				rd = iotest.OneByteReader(rd)
+			case 1:
+				rd = iotest.DataErrReader(rd)
+				c.Count("reader.data_with_eof")
+			default:
+				rd = iotest.DataErrReader(iotest.HalfReader(rd))
+				c.Count("reader.data_with_eof")
+			}
 			for k := 0; k < 2; k++ {
 				got, err := wkb.Read(rd)
 				if err != nil {
